@@ -16,6 +16,8 @@ import (
 	"context"
 	"errors"
 	"fmt"
+	"math"
+	"sort"
 	"strings"
 	"time"
 
@@ -480,7 +482,99 @@ func genC19(tier string) []Scenario {
 		}
 	}
 	out = append(out, probeScenarios()...)
+	out = append(out, Scenario{Name: "config value sweep: every form reports (and a second form agrees on) small, large and negative values", Direct: configValueSweep})
 	return out
+}
+
+// configValueSweep: the four ways of setting a number — constructor option, option function
+// applied to the embedded BaseNode later, builder method of the plain builder, builder method of the
+// batch builder — agree on what the getter reports, for values far outside the small ones as well
+// (a cap, a clamp or a wrap-around in ONE of the forms makes them differ).
+func configValueSweep(deadline time.Time) *core.Stats {
+	st := &core.Stats{ByCost: map[int]int64{}, Outcomes: map[string]int64{}}
+	complain := func(msg string) {
+		if len(st.Violations) < 10 {
+			st.Violations = append(st.Violations, core.Violation{Msgs: []string{msg}, Log: []string{msg}})
+		}
+	}
+	ints := []int{-1 << 31, -5, -1, 0, 1, 2, 3, 7, 64, 255, 256, 257, 300, 1000, 4096, 65535, 65536, 1 << 20, 1<<31 - 1, 1 << 40, math.MaxInt}
+	durs := []time.Duration{-time.Second, -1, 0, 1, time.Microsecond, time.Millisecond, time.Minute, 24 * time.Hour, 1 << 62}
+	for _, what := range []string{"MaxRetries", "BatchConcurrency"} {
+		for _, v := range ints {
+			opt := flyt.WithMaxRetries(v)
+			if what == "BatchConcurrency" {
+				opt = flyt.WithBatchConcurrency(v)
+			}
+			got := map[string]int{}
+			read := func(n interface {
+				GetMaxRetries() int
+				GetBatchConcurrency() int
+			}) int {
+				if what == "MaxRetries" {
+					return n.GetMaxRetries()
+				}
+				return n.GetBatchConcurrency()
+			}
+			got["NewNode(option)"] = read(flyt.NewNode(opt))
+			got["NewBatchNode(option)"] = read(flyt.NewBatchNode(opt))
+			got["NewBatchNode(small option, option)"] = read(flyt.NewBatchNode(flyt.WithMaxRetries(2), flyt.WithBatchConcurrency(2), opt))
+			nb := flyt.NewNode()
+			opt(nb.BaseNode)
+			got["option applied to NewNode().BaseNode"] = read(nb)
+			bb := flyt.NewBatchNode()
+			opt(bb.BaseNode)
+			got["option applied to NewBatchNode().BaseNode"] = read(bb)
+			if what == "MaxRetries" {
+				got["NewNode().WithMaxRetries"] = read(flyt.NewNode().WithMaxRetries(v))
+				got["NewBatchNode().WithMaxRetries"] = read(flyt.NewBatchNode().WithMaxRetries(v))
+			} else {
+				got["NewNode().WithBatchConcurrency"] = read(flyt.NewNode().WithBatchConcurrency(v))
+				got["NewBatchNode().WithBatchConcurrency"] = read(flyt.NewBatchNode().WithBatchConcurrency(v))
+			}
+			for _, k := range sortedKeys(got) {
+				if got[k] != v {
+					complain(fmt.Sprintf("%s set to %d by %s: the getter reports %d (other forms: %v)", what, v, k, got[k], got))
+					break
+				}
+			}
+			st.Executions++
+			st.Transitions += int64(len(got))
+			st.Outcomes[fmt.Sprintf("%s=%d", what, v)]++
+		}
+	}
+	for _, d := range durs {
+		got := map[string]time.Duration{
+			"NewNode(option)":              flyt.NewNode(flyt.WithWait(d)).GetWait(),
+			"NewBatchNode(option)":         flyt.NewBatchNode(flyt.WithWait(d)).GetWait(),
+			"NewNode().WithWait":           flyt.NewNode().WithWait(d).GetWait(),
+			"NewBatchNode().WithWait":      flyt.NewBatchNode().WithWait(d).GetWait(),
+			"NewBaseNode(option)":          flyt.NewBaseNode(flyt.WithWait(d)).GetWait(),
+			"NewNode(1ms option).WithWait": flyt.NewNode(flyt.WithWait(time.Millisecond)).WithWait(d).GetWait(),
+			"NewBatchNode(option, option)": flyt.NewBatchNode(flyt.WithWait(time.Millisecond), flyt.WithWait(d)).GetWait(),
+		}
+		for _, k := range sortedKeys(got) {
+			if g := got[k]; g != d {
+				complain(fmt.Sprintf("Wait set to %v by %s: the getter reports %v", d, k, g))
+				break
+			}
+		}
+		st.Executions++
+		st.Transitions += int64(len(got))
+		st.Outcomes[fmt.Sprintf("Wait=%v", d)]++
+	}
+	st.TreeNodes = int64(2*len(ints) + len(durs))
+	st.ByCost[0] = st.Executions
+	st.SampleLog = []string{"BatchConcurrency 300 by option and by builder method: both getters report 300"}
+	return st
+}
+
+func sortedKeys[V any](m map[string]V) []string {
+	ks := make([]string, 0, len(m))
+	for k := range m {
+		ks = append(ks, k)
+	}
+	sort.Strings(ks)
+	return ks
 }
 
 // ---------------------------------------------------------------- behavioural probes
